@@ -134,6 +134,18 @@ def gen_http():
     title_cased = [("%sA" % chr(c)).title()[-1] == "a" for c in range(256)]
     title_first = [[ord(x) for x in chr(c).title()] for c in range(256)]
     decimal = [chr(c).isdecimal() for c in range(256)]
+    # every Unicode decimal digit (what int() / float() accept): runs of ten starting at a DIGIT ZERO
+    import unicodedata as _ud
+
+    nd = [c for c in range(0x110000) if chr(c).isdecimal()]
+    zeros, covered = [], set()
+    for c in nd:
+        if _ud.decimal(chr(c)) == 0 and all(chr(c + i).isdecimal() and _ud.decimal(chr(c + i)) == i for i in range(10)):
+            zeros.append(c)
+            covered.update(range(c, c + 10))
+    stray = [(c, _ud.decimal(chr(c))) for c in nd if c not in covered]
+    # int() itself on one probe per run (the table is about int(), not about unicodedata)
+    int_ok = all(int(chr(z + 7) + "_" + chr(z)) == 70 for z in zeros)
 
     # names the live http_date writes (email.utils tables), observed through the public function
     days = []
@@ -208,6 +220,13 @@ def titleCased : List Bool := {bools(title_cased)}
 def titleTbl : List (List Nat) := {lean_list(["[" + ", ".join(str(x) for x in r) + "]" for r in title_first])}
 /-- `chr(c).isdecimal()` (digits accepted by `int()`) -/
 def decimalTbl : List Bool := {bools(decimal)}
+/-- code points of every DIGIT ZERO `z` such that `z .. z+9` are the decimal digits 0..9
+(`str.isdecimal`, `unicodedata.decimal`); together they are all {len(nd)} decimal digits of this CPython -/
+def decimalZeros : List Nat := {lean_list([str(z) for z in zeros])}
+/-- decimal digits outside those runs: (code point, value) -/
+def decimalStray : List (Nat × Nat) := {lean_list(["(%d, %d)" % x for x in stray])}
+/-- `int(chr(z+7) + "_" + chr(z)) == 70` for every run (probe of the live `int`) -/
+def decimalIntProbe : Bool := {lean_bool(int_ok)}
 
 /-- day and month names written by the live `http_date` (Monday first) -/
 def dayNames : List String := {strs(days, 7)}
